@@ -328,8 +328,21 @@ def order_domain(ctx, repo):
         ctx.ob("O6", ok=ok, distinct=(expected, c.lineno))
         if not ok:
             ctx.violation("O6", f"{expected}|{k}", pe.loc(c), f"the look-up in the `{[w for w in want_by_word if w in words] or ['group.param']}` branch loads the parameter at `{ast.unparse(c.args[0]) if c.args else '?'}` ({k}), expected {expected}")
-    if not {"day-before-entry", "year-earlier", "jan-1", "same"} <= seen_kinds and not any(f.rule in ("O5", "O6") for f in ctx.findings):
-        raise AnalysisError(f"loader: only look-ups of kinds {sorted(seen_kinds)} found; O6 needs a re-read")
+    missing_kinds = {"day-before-entry", "year-earlier", "jan-1", "same"} - seen_kinds
+    if missing_kinds and not any(f.rule in ("O5", "O6") for f in ctx.findings):
+        # a branch whose keyword is still handled but which no longer goes through the loader itself: the value for the
+        # other date is taken from the raw file, so `deviation_from` chains, scalars etc. are not resolved there
+        word_of = {"year-earlier": "vorjahr", "jan-1": "jahresanfang", "day-before-entry": "previous"}
+        scope_src = "\n".join(ast.unparse(f_) for f_ in scope)
+        reported = False
+        for k_ in sorted(missing_kinds):
+            w_ = word_of.get(k_)
+            if w_ and f"'{w_}'" in scope_src:
+                ctx.ob("O6", ok=False, distinct=("no-lookup", w_))
+                ctx.violation("O6", f"{w_}|no recursive look-up", pe.loc(loader), f"the loader still handles `{w_}` but no longer obtains that value by a look-up of the parameter through the loader at the other date: an entry written as `deviation_from` (or inherited keys) is not resolved, the `{w_}` value is incomplete or missing on some dates")
+                reported = True
+        if not reported:
+            raise AnalysisError(f"loader: only look-ups of kinds {sorted(seen_kinds)} found; O6 needs a re-read")
 
     # ---- O4 conflict predicate
     sh = repo.module("shared.py")
